@@ -46,7 +46,7 @@ type Proof struct {
 }
 
 func (p *Proof) IsValid() bool {
-	if p == nil {
+	if p == nil || p.Commitment == nil || p.A == nil || p.B == nil || p.C == nil || p.Z1 == nil || p.Z2 == nil {
 		return false
 	}
 	if p.A.IsIdentity() || p.B.IsIdentity() || p.C.IsIdentity() {
